@@ -242,15 +242,14 @@ class IndentationFeatures(object):
 
         Number of points in indentation curve
         """
-        if self.is_valid:
-            a_ind = self.datay_apr
-            num = a_ind.shape[0]
-            if num < 600:
-                value = False
-            else:
-                value = True
+        # (This is a property of the data alone. It must not depend on
+        # whether any fit settings have been stored yet.)
+        a_ind = self.datay_apr
+        num = a_ind.shape[0]
+        if num < 600:
+            value = False
         else:
-            value = np.nan
+            value = True
         return value
 
     def feat_con_apr_flatness(self):
